@@ -66,7 +66,8 @@ def main():
         print("NATIVE=" + json.dumps(out))
     elif mode == "conform":
         obs = []
-        for fname, args in getattr(mod, "CONFORMANCE", []):
+        for item in getattr(mod, "CONFORMANCE", []):
+            fname, args = item[0], item[1]
             fn = getattr(mod, fname)
             try:
                 r = repr(call(fn, unjson(args)) if isinstance(args, dict) else fn(*args))
